@@ -316,3 +316,329 @@ Example c11_known_answer :
     SendTo [0x45; 0x00; 0x00; 0x1c; 0x00; 0x00; 0x40; 0x00; 0x0a; 0x01; 0x00; 0x00; 0x01; 0x02; 0x03; 0x04;
             0x05; 0x06; 0x07; 0x08; 0x08; 0x00; 0x70; 0x93; 0x04; 0xd2; 0x82; 0x9a] [5;6;7;8] 0], Ok tt).
 Proof. vm_compute. reflexivity. Qed.
+
+(* ====================================================================================================
+   The send path under socket errors (Proofs/SendErrorsProofs.v), the Paris/IPv6 datagram as the object of
+   C13 (Proofs/ChecksumExtra.v), and the glue to the strategy (Proofs/IssuedProbes.v).
+   ==================================================================================================== *)
+From TV Require Import Proofs.SendErrorsProofs Proofs.ChecksumExtra.
+From TV Require Proofs.IssuedProbes.
+
+(* ---- EVERY cell (protocol x family x privilege mode x flags), EVERY list of injected socket errors, either
+   byte order: what `connect` + `send_probe` log and return is the error-free list of socket calls [ops]
+   replayed as a script ([replay]): each call goes through the ErrorMapper table the code applies to it
+   ([outcome_table]: bind / connect: EINPROGRESS = success, AddrInUse -> AddressInUse, AddrNotAvailable resp.
+   ENETUNREACH -> ProbeFailed on IPv4 only; send_to: EHOSTUNREACH / ENETUNREACH (and InvalidInput for ICMP) ->
+   ProbeFailed on the raw IPv4 paths only; everything else IoError), the run stops at the first remaining error,
+   a failed constructor is not logged.  The hypothesis (the error-free run succeeds) is what the per-cell
+   theorems above establish. ---- *)
+Theorem c11_any_errors : forall bo cfg inj p ops,
+  cfg_v4 cfg \/ cfg_v6 cfg ->
+  run_send bo cfg [] p = (connect_ops (is_v6 (cc_source cfg)) cfg ++ ops, Ok tt) ->
+  run_send bo cfg inj p =
+    (connect_ops (is_v6 (cc_source cfg)) cfg ++ fst (replay cfg ops inj), snd (replay cfg ops inj)).
+Proof. exact c11_any_errors_lemma. Qed.
+
+(* errors only truncate the list of calls (no call is added, reordered or changed), and a successful
+   send_probe has made every call *)
+Theorem c11_errors_only_truncate : forall bo cfg inj p ops,
+  cfg_v4 cfg \/ cfg_v6 cfg ->
+  run_send bo cfg [] p = (connect_ops (is_v6 (cc_source cfg)) cfg ++ ops, Ok tt) ->
+  (exists n, fst (run_send bo cfg inj p) = connect_ops (is_v6 (cc_source cfg)) cfg ++ firstn n ops) /\
+  (snd (run_send bo cfg inj p) = Ok tt ->
+   fst (run_send bo cfg inj p) = connect_ops (is_v6 (cc_source cfg)) cfg ++ ops).
+Proof. exact c11_errors_only_truncate_lemma. Qed.
+
+(* hence every datagram handed to send_to under any errors is the (well-formed, by the theorems above) datagram
+   of the error-free run, sent to the same address and port *)
+Theorem c11_same_datagram_under_errors : forall bo cfg inj p ops b a port,
+  cfg_v4 cfg \/ cfg_v6 cfg ->
+  run_send bo cfg [] p = (connect_ops (is_v6 (cc_source cfg)) cfg ++ ops, Ok tt) ->
+  In (SendTo b a port) (fst (run_send bo cfg inj p)) -> In (SendTo b a port) ops.
+Proof. exact c11_same_datagram_lemma. Qed.
+
+(* ---- TCP: whenever connect is called - whatever the environment injects - it is the last call, on a fresh
+   stream socket bound to source:src_port, AFTER the time-to-live / hop limit and (IPv4) the type of service
+   were set, and it goes to target:dest_port ---- *)
+Theorem c11_tcp_ipv4_options_before_connect : forall cfg inj p a port,
+  cfg_v4 cfg -> cc_protocol cfg = Tcp -> cc_packet_size cfg <= 1024 ->
+  In (Connect a port) (fst (run_send BoNetwork cfg inj p)) ->
+  fst (run_send BoNetwork cfg inj p) =
+    connect_ops false cfg ++
+      [NewSocket SkTcp4 false; Bind (cc_source cfg) (p_src_port p); SetTtl (p_ttl p); SetTos (cc_tos cfg);
+       Connect (cc_target cfg) (p_dest_port p)].
+Proof. exact c11_tcp_ipv4_order_lemma. Qed.
+
+Theorem c11_tcp_ipv6_options_before_connect : forall cfg inj p a port,
+  cfg_v6 cfg -> cc_protocol cfg = Tcp -> cc_packet_size cfg <= 1024 ->
+  In (Connect a port) (fst (run_send BoNetwork cfg inj p)) ->
+  fst (run_send BoNetwork cfg inj p) =
+    connect_ops true cfg ++
+      [NewSocket SkTcp6 false; Bind (cc_source cfg) (p_src_port p); SetUnicastHopsV6 (p_ttl p);
+       Connect (cc_target cfg) (p_dest_port p)].
+Proof. exact c11_tcp_ipv6_order_lemma. Qed.
+
+(* the connect error of a TCP probe: EINPROGRESS is success, AddrInUse -> AddressInUse, ENETUNREACH ->
+   ProbeFailed (IPv4 only; over IPv6 it stays an IoError), every call has been made *)
+Theorem c11_error_mapping_tcp_ipv4_connect : forall cfg p k,
+  cfg_v4 cfg -> cc_protocol cfg = Tcp -> cc_packet_size cfg <= 1024 ->
+  run_send BoNetwork cfg [(CConnect, k)] p =
+    (connect_ops false cfg ++
+       [NewSocket SkTcp4 false; Bind (cc_source cfg) (p_src_port p); SetTtl (p_ttl p); SetTos (cc_tos cfg);
+        Connect (cc_target cfg) (p_dest_port p)],
+     if k =? K_IN_PROGRESS then Ok tt
+     else if k =? K_ADDR_IN_USE then Err EAddressInUse
+     else if k =? K_NET_UNREACHABLE then Err EProbeFailed
+     else Err (EIo k)).
+Proof. exact c11_tcp_ipv4_connect_error_lemma. Qed.
+
+Theorem c11_error_mapping_tcp_ipv6_connect : forall cfg p k,
+  cfg_v6 cfg -> cc_protocol cfg = Tcp -> cc_packet_size cfg <= 1024 ->
+  run_send BoNetwork cfg [(CConnect, k)] p =
+    (connect_ops true cfg ++
+       [NewSocket SkTcp6 false; Bind (cc_source cfg) (p_src_port p); SetUnicastHopsV6 (p_ttl p);
+        Connect (cc_target cfg) (p_dest_port p)],
+     if k =? K_IN_PROGRESS then Ok tt
+     else if k =? K_ADDR_IN_USE then Err EAddressInUse
+     else Err (EIo k)).
+Proof. exact c11_tcp_ipv6_connect_error_lemma. Qed.
+
+(* a failing set_ttl / set_tos is an IoError and no connect is attempted with the wrong options *)
+Theorem c11_tcp_ipv4_sockopt_error : forall cfg p k inj,
+  cfg_v4 cfg -> cc_protocol cfg = Tcp -> cc_packet_size cfg <= 1024 ->
+  inj = [(CSetTtl, k)] \/ inj = [(CSetTos, k)] ->
+  snd (run_send BoNetwork cfg inj p) = Err (EIo k) /\
+  forall a port, ~ In (Connect a port) (fst (run_send BoNetwork cfg inj p)).
+Proof. exact c11_tcp_ipv4_sockopt_error_lemma. Qed.
+
+(* ---- UDP / IPv6 Paris: the ten octets handed to send_to are the [paris_udp_v6] of Proofs/ChecksumExtra.v (the
+   Paris swap of Packet/Checksum.v plus the computed-zero rule of make_udp_packet), the object of C13's
+   c13_paris_ipv6 / c13_paris_ipv6_unique ---- *)
+Theorem c11_udp_ipv6_paris_is_c13 : forall cfg p,
+  cfg_v6 cfg -> cc_protocol cfg = Udp -> cc_privilege cfg = Privileged ->
+  48 <= cc_packet_size cfg <= 1024 -> probe_wf p -> p_flags p = 1 ->
+  run_send BoNetwork cfg [] p =
+    (connect_ops true cfg ++
+       [SetUnicastHopsV6 (p_ttl p);
+        SendTo (paris_udp_v6 (p_src_port p) (p_dest_port p) (p_sequence p) (cc_source cfg) (cc_target cfg))
+               (cc_target cfg) 0], Ok tt).
+Proof. exact c11_udp_ipv6_paris_c13_lemma. Qed.
+
+(* ---- the glue to the strategy: every probe an iteration of the strategy hands to send_probe (the ESend events
+   of Core/Strategy.v step) carries identifier, ports and flags as its protocol / multipath strategy prescribes
+   ([IssuedProbes.prescribed_fields]: ICMP - trace identifier, flags 0; UDP classic / TCP - one port IS the sequence;
+   Paris - flag 1; Dublin - flag 2 and identifier = sequence), for every state, reachable or not ... ---- *)
+Theorem c11_issued_probe_fields : forall c s i s' ev e,
+  Strategy.step c s i = Ok (s', ev, e) ->
+  Forall (IssuedProbes.prescribed_fields c) (StrategyInv.ev_probes ev).
+Proof. exact IssuedProbes.issued_probe_fields_lemma. Qed.
+
+(* ... and lies in the quantifier domain [probe_wf] of the dispatch theorems (builder-accepted configuration,
+   reachable state) *)
+Theorem c11_issued_probe_wf : forall c s i s' ev e,
+  StrategyInv.Accept c -> StrategyProps.reach c s -> Strategy.step c s i = Ok (s', ev, e) ->
+  Forall probe_wf (StrategyInv.ev_probes ev).
+Proof. exact IssuedProbes.issued_probe_wf_lemma. Qed.
+
+(* two compositions strategy -> dispatch -> wire.  Dublin over IPv4: the IP identification on the wire is the
+   sequence of the probe the strategy issued *)
+Theorem c11_issued_dublin_ipv4 : forall c s i s' ev e cfg p,
+  StrategyInv.Accept c -> StrategyProps.reach c s -> Strategy.step c s i = Ok (s', ev, e) ->
+  In p (StrategyInv.ev_probes ev) -> proto c = Udp -> multipath c = Dublin ->
+  cfg_v4 cfg -> cc_protocol cfg = Udp -> cc_privilege cfg = Privileged -> 28 <= cc_packet_size cfg <= 1024 ->
+  exists b,
+    run_send BoNetwork cfg [] p = (connect_ops false cfg ++ [SendTo b (cc_target cfg) (p_dest_port p)], Ok tt) /\
+    ipv4_wellformed (cc_source cfg) (cc_target cfg) (cc_tos cfg) (p_ttl p) 17 b /\
+    ip_identification (rfc791_decode b) = p_sequence p /\
+    Z.of_nat (length b) = cc_packet_size cfg.
+Proof. exact IssuedProbes.issued_dublin_ipv4_lemma. Qed.
+
+(* Paris over IPv6 (F14, repaired in the builder): the UDP checksum field on the wire is the sequence of the probe
+   the strategy issued, the datagram verifies, and the field is never zero *)
+Theorem c11_issued_paris_ipv6 : forall c s i s' ev e cfg p,
+  StrategyInv.Accept c -> StrategyProps.reach c s -> Strategy.step c s i = Ok (s', ev, e) ->
+  In p (StrategyInv.ev_probes ev) -> proto c = Udp -> multipath c = Paris -> is_v6 (target_addr c) = true ->
+  cfg_v6 cfg -> cc_protocol cfg = Udp -> cc_privilege cfg = Privileged -> 48 <= cc_packet_size cfg <= 1024 ->
+  exists u,
+    run_send BoNetwork cfg [] p =
+      (connect_ops true cfg ++ [SetUnicastHopsV6 (p_ttl p); SendTo u (cc_target cfg) 0], Ok tt) /\
+    udp_wellformed (p_src_port p) (p_dest_port p)
+      (pseudo_header_v6 (cc_source cfg) (cc_target cfg) 17 (Z.of_nat (length u))) u /\
+    ud_checksum (rfc768_decode u) = p_sequence p /\
+    ud_checksum (rfc768_decode u) <> 0.
+Proof. exact IssuedProbes.issued_paris_ipv6_lemma. Qed.
+
+(* ---- non-vacuity of the statements under errors ---- *)
+Definition ex_cfg_tcp4 : chan_cfg :=
+  {| cc_privilege := Privileged; cc_protocol := Tcp; cc_source := [1;2;3;4]; cc_target := [5;6;7;8];
+     cc_packet_size := 28; cc_payload_pattern := 0; cc_initial_sequence := 33434; cc_tos := 7 |}.
+Definition ex_probe_tcp : probe :=
+  {| p_sequence := 33434; p_identifier := 0; p_src_port := 33434; p_dest_port := 80;
+     p_ttl := 10; p_round := 0; p_sent := 0; p_flags := 0 |}.
+
+(* bind answers EINPROGRESS (success), set_tos fails: the socket is bound, both options are attempted, no connect *)
+Example c11_any_errors_example :
+  run_send BoNetwork ex_cfg_tcp4 [(CSetTos, 77); (CBind, K_IN_PROGRESS)] ex_probe_tcp =
+  ([NewSocket SkRecv4 true; NewSocket SkTcp4 false; Bind [1;2;3;4] 33434; SetTtl 10; SetTos 7], Err (EIo 77)) /\
+  replay ex_cfg_tcp4 [NewSocket SkTcp4 false; Bind [1;2;3;4] 33434; SetTtl 10; SetTos 7; Connect [5;6;7;8] 80]
+         [(CSetTos, 77); (CBind, K_IN_PROGRESS)] =
+  ([NewSocket SkTcp4 false; Bind [1;2;3;4] 33434; SetTtl 10; SetTos 7], Err (EIo 77)).
+Proof. vm_compute. split; reflexivity. Qed.
+
+(* ENETUNREACH on connect is ProbeFailed over IPv4 *)
+Example c11_connect_unreachable_example :
+  snd (run_send BoNetwork ex_cfg_tcp4 [(CConnect, K_NET_UNREACHABLE)] ex_probe_tcp) = Err EProbeFailed.
+Proof. vm_compute. reflexivity. Qed.
+
+(* ---- the last call of a probe (the send_to or the connect) is only ever made after every other call of the
+   probe was made: bind, time-to-live / hop limit, type of service are never skipped ---- *)
+Theorem c11_last_call_after_all_others : forall bo cfg inj p l0 x,
+  cfg_v4 cfg \/ cfg_v6 cfg ->
+  run_send bo cfg [] p = (connect_ops (is_v6 (cc_source cfg)) cfg ++ l0 ++ [x], Ok tt) ->
+  ~ In x (connect_ops (is_v6 (cc_source cfg)) cfg ++ l0) ->
+  In x (fst (run_send bo cfg inj p)) ->
+  fst (run_send bo cfg inj p) = connect_ops (is_v6 (cc_source cfg)) cfg ++ l0 ++ [x].
+Proof. exact c11_last_call_lemma. Qed.
+
+(* unprivileged UDP, any injected errors: whatever is sent is the pattern payload, to target:dest_port, from a fresh
+   datagram socket bound to source:src_port on which the time-to-live / hop limit (and the TOS over IPv4) were set *)
+Theorem c11_udp_ipv4_unprivileged_options_before_send : forall cfg inj p b a port,
+  cfg_v4 cfg -> cc_protocol cfg = Udp -> cc_privilege cfg = Unprivileged -> 28 <= cc_packet_size cfg <= 1024 ->
+  In (SendTo b a port) (fst (run_send BoNetwork cfg inj p)) ->
+  fst (run_send BoNetwork cfg inj p) =
+    connect_ops false cfg ++
+      [NewSocket SkUdp4 false; Bind (cc_source cfg) (p_src_port p); SetTtl (p_ttl p); SetTos (cc_tos cfg);
+       SendTo (repeat (cc_payload_pattern cfg) (Z.to_nat (cc_packet_size cfg - 28))) (cc_target cfg) (p_dest_port p)].
+Proof. exact c11_udp_ipv4_unprivileged_order_lemma. Qed.
+
+Theorem c11_udp_ipv6_unprivileged_options_before_send : forall cfg inj p b a port,
+  cfg_v6 cfg -> cc_protocol cfg = Udp -> cc_privilege cfg = Unprivileged -> 48 <= cc_packet_size cfg <= 1024 ->
+  In (SendTo b a port) (fst (run_send BoNetwork cfg inj p)) ->
+  fst (run_send BoNetwork cfg inj p) =
+    connect_ops true cfg ++
+      [NewSocket SkUdp6 false; Bind (cc_source cfg) (p_src_port p); SetUnicastHopsV6 (p_ttl p);
+       SendTo (repeat (cc_payload_pattern cfg) (Z.to_nat (cc_packet_size cfg - 48))) (cc_target cfg) (p_dest_port p)].
+Proof. exact c11_udp_ipv6_unprivileged_order_lemma. Qed.
+
+(* the ErrorMapper tables differ by family (as written in ipv4.rs / ipv6.rs): the same ENETUNREACH on the connect of
+   a TCP probe is a failed probe over IPv4 and a fatal IoError over IPv6 (likewise AddrNotAvailable on bind and
+   EHOSTUNREACH / ENETUNREACH on the raw send_to, see [outcome_table]) *)
+Theorem c11_error_mapping_differs_by_family : forall cfg4 cfg6 p,
+  cfg_v4 cfg4 -> cc_protocol cfg4 = Tcp -> cc_packet_size cfg4 <= 1024 ->
+  cfg_v6 cfg6 -> cc_protocol cfg6 = Tcp -> cc_packet_size cfg6 <= 1024 ->
+  snd (run_send BoNetwork cfg4 [(CConnect, K_NET_UNREACHABLE)] p) = Err EProbeFailed /\
+  snd (run_send BoNetwork cfg6 [(CConnect, K_NET_UNREACHABLE)] p) = Err (EIo K_NET_UNREACHABLE).
+Proof. exact c11_family_asymmetry_lemma. Qed.
+
+(* ---- the remaining cells, from the strategy's side: for every probe a builder-accepted strategy issues from a
+   reachable state, the wire carries the sequence where the strategy prescribes it (and the tracer's trace
+   identifier for ICMP).  Together with c11_issued_dublin_ipv4 and c11_issued_paris_ipv6 above these discharge the
+   hypotheses probe_wf / p_flags / p_identifier / dublin_v6_fits of the per-cell theorems. ---- *)
+Theorem c11_issued_icmp_ipv4 : forall c s i s' ev e cfg p,
+  StrategyInv.Accept c -> StrategyProps.reach c s -> Strategy.step c s i = Ok (s', ev, e) ->
+  In p (StrategyInv.ev_probes ev) -> proto c = Icmp ->
+  cfg_v4 cfg -> cc_protocol cfg = Icmp -> 28 <= cc_packet_size cfg <= 1024 ->
+  exists b,
+    run_send BoNetwork cfg [] p = (connect_ops false cfg ++ [SendTo b (cc_target cfg) 0], Ok tt) /\
+    ipv4_wellformed (cc_source cfg) (cc_target cfg) (cc_tos cfg) (p_ttl p) 1 b /\
+    Z.of_nat (length b) = cc_packet_size cfg /\
+    echo_wellformed 8 (trace_identifier c) (p_sequence p) (cc_payload_pattern cfg)
+      (Z.to_nat (cc_packet_size cfg - 28)) [] (ip_payload (rfc791_decode b)).
+Proof. exact IssuedProbes.issued_icmp_ipv4_lemma. Qed.
+
+Theorem c11_issued_icmp_ipv6 : forall c s i s' ev e cfg p,
+  StrategyInv.Accept c -> StrategyProps.reach c s -> Strategy.step c s i = Ok (s', ev, e) ->
+  In p (StrategyInv.ev_probes ev) -> proto c = Icmp ->
+  cfg_v6 cfg -> cc_protocol cfg = Icmp -> 48 <= cc_packet_size cfg <= 1024 ->
+  exists m,
+    run_send BoNetwork cfg [] p =
+      (connect_ops true cfg ++ [SetUnicastHopsV6 (p_ttl p); SendTo m (cc_target cfg) 0], Ok tt) /\
+    Z.of_nat (length m) + 40 = cc_packet_size cfg /\
+    echo_wellformed 128 (trace_identifier c) (p_sequence p) (cc_payload_pattern cfg)
+      (Z.to_nat (cc_packet_size cfg - 48))
+      (pseudo_header_v6 (cc_source cfg) (cc_target cfg) 58 (Z.of_nat (length m))) m.
+Proof. exact IssuedProbes.issued_icmp_ipv6_lemma. Qed.
+
+(* classic UDP: one of the two UDP ports the decoder reads is the sequence *)
+Theorem c11_issued_classic_udp_ipv4 : forall c s i s' ev e cfg p,
+  StrategyInv.Accept c -> StrategyProps.reach c s -> Strategy.step c s i = Ok (s', ev, e) ->
+  In p (StrategyInv.ev_probes ev) -> proto c = Udp -> multipath c = Classic ->
+  cfg_v4 cfg -> cc_protocol cfg = Udp -> cc_privilege cfg = Privileged -> 28 <= cc_packet_size cfg <= 1024 ->
+  exists b,
+    run_send BoNetwork cfg [] p = (connect_ops false cfg ++ [SendTo b (cc_target cfg) (p_dest_port p)], Ok tt) /\
+    ipv4_wellformed (cc_source cfg) (cc_target cfg) (cc_tos cfg) (p_ttl p) 17 b /\
+    Z.of_nat (length b) = cc_packet_size cfg /\
+    let u := ip_payload (rfc791_decode b) in
+    udp_wellformed (p_src_port p) (p_dest_port p)
+      (pseudo_header_v4 (cc_source cfg) (cc_target cfg) 17 (Z.of_nat (length u))) u /\
+    (ud_source_port (rfc768_decode u) = p_sequence p \/ ud_destination_port (rfc768_decode u) = p_sequence p).
+Proof. exact IssuedProbes.issued_classic_udp_ipv4_lemma. Qed.
+
+Theorem c11_issued_classic_udp_ipv6 : forall c s i s' ev e cfg p,
+  StrategyInv.Accept c -> StrategyProps.reach c s -> Strategy.step c s i = Ok (s', ev, e) ->
+  In p (StrategyInv.ev_probes ev) -> proto c = Udp -> multipath c = Classic ->
+  cfg_v6 cfg -> cc_protocol cfg = Udp -> cc_privilege cfg = Privileged -> 48 <= cc_packet_size cfg <= 1024 ->
+  exists u,
+    run_send BoNetwork cfg [] p =
+      (connect_ops true cfg ++ [SetUnicastHopsV6 (p_ttl p); SendTo u (cc_target cfg) 0], Ok tt) /\
+    udp_wellformed (p_src_port p) (p_dest_port p)
+      (pseudo_header_v6 (cc_source cfg) (cc_target cfg) 17 (Z.of_nat (length u))) u /\
+    ud_checksum (rfc768_decode u) <> 0 /\
+    Z.of_nat (length u) + 40 = cc_packet_size cfg /\
+    (ud_source_port (rfc768_decode u) = p_sequence p \/ ud_destination_port (rfc768_decode u) = p_sequence p).
+Proof. exact IssuedProbes.issued_classic_udp_ipv6_lemma. Qed.
+
+(* Paris over IPv4: the UDP checksum field is the sequence and the datagram verifies *)
+Theorem c11_issued_paris_ipv4 : forall c s i s' ev e cfg p,
+  StrategyInv.Accept c -> StrategyProps.reach c s -> Strategy.step c s i = Ok (s', ev, e) ->
+  In p (StrategyInv.ev_probes ev) -> proto c = Udp -> multipath c = Paris ->
+  cfg_v4 cfg -> cc_protocol cfg = Udp -> cc_privilege cfg = Privileged -> 28 <= cc_packet_size cfg <= 1024 ->
+  exists b,
+    run_send BoNetwork cfg [] p = (connect_ops false cfg ++ [SendTo b (cc_target cfg) (p_dest_port p)], Ok tt) /\
+    ipv4_wellformed (cc_source cfg) (cc_target cfg) (cc_tos cfg) (p_ttl p) 17 b /\
+    let u := ip_payload (rfc791_decode b) in
+    udp_wellformed (p_src_port p) (p_dest_port p)
+      (pseudo_header_v4 (cc_source cfg) (cc_target cfg) 17 (Z.of_nat (length u))) u /\
+    ud_checksum (rfc768_decode u) = p_sequence p.
+Proof. exact IssuedProbes.issued_paris_ipv4_lemma. Qed.
+
+(* Dublin over IPv6: the UDP length field encodes the sequence; the dispatch precondition (payload fits the buffer,
+   no u16 underflow) holds for every issued probe, so the cell never panics under the strategy *)
+Theorem c11_issued_dublin_ipv6 : forall c s i s' ev e cfg p,
+  StrategyInv.Accept c -> StrategyProps.reach c s -> Strategy.step c s i = Ok (s', ev, e) ->
+  In p (StrategyInv.ev_probes ev) -> proto c = Udp -> multipath c = Dublin -> is_v6 (target_addr c) = true ->
+  cfg_v6 cfg -> cc_protocol cfg = Udp -> cc_privilege cfg = Privileged -> 48 <= cc_packet_size cfg <= 1024 ->
+  cc_initial_sequence cfg = initial_sequence c ->
+  exists u,
+    run_send BoNetwork cfg [] p =
+      (connect_ops true cfg ++ [SetUnicastHopsV6 (p_ttl p); SendTo u (cc_target cfg) 0], Ok tt) /\
+    udp_wellformed (p_src_port p) (p_dest_port p)
+      (pseudo_header_v6 (cc_source cfg) (cc_target cfg) 17 (Z.of_nat (length u))) u /\
+    ud_data (rfc768_decode u) =
+      MAGIC ++ repeat (cc_payload_pattern cfg) (Z.to_nat (p_sequence p - initial_sequence c)) /\
+    ud_checksum (rfc768_decode u) <> 0 /\
+    ud_length (rfc768_decode u) = 8 + 6 + (p_sequence p - initial_sequence c).
+Proof. exact IssuedProbes.issued_dublin_ipv6_lemma. Qed.
+
+(* non-vacuity of the c11_issued_* hypotheses: a builder-accepted Dublin configuration, its initial state (reachable),
+   one iteration that sends; the issued probe has flags 2 and identifier = sequence *)
+Definition ex_scfg : scfg :=
+  {| target_addr := [5;6;7;8]; proto := Udp; trace_identifier := 1234; max_rounds := None;
+     first_ttl := 1; max_ttl := 64; grace_duration := 100; max_inflight := 24; initial_sequence := 33434;
+     multipath := Dublin; port_direction := FixedSrc 5000; min_round_duration := 1000; max_round_duration := 1000 |}.
+Definition ex_iter : Strategy.iter_in :=
+  {| Strategy.i_clock := [10]; Strategy.i_sends := [Strategy.Sent]; Strategy.i_recv := Strategy.Timeout;
+     Strategy.i_update := 20; Strategy.i_advance := 20 |}.
+Definition ex_issued : probe :=
+  {| p_sequence := 33434; p_identifier := 33434; p_src_port := 5000; p_dest_port := 33434;
+     p_ttl := 1; p_round := 0; p_sent := 10; p_flags := 2 |}.
+
+Example c11_issued_hypotheses_satisfiable :
+  StrategyInv.Accept ex_scfg /\ StrategyProps.reach ex_scfg (TracerState.ts_new ex_scfg 0) /\
+  exists s', Strategy.step ex_scfg (TracerState.ts_new ex_scfg 0) ex_iter = Ok (s', [Strategy.ESend ex_issued Strategy.Sent], None) /\
+             In ex_issued (StrategyInv.ev_probes [Strategy.ESend ex_issued Strategy.Sent]).
+Proof.
+  split; [split; [reflexivity|]|split; [constructor|]].
+  - unfold Builder.cfg_wf, Builder.u8, Builder.u16, Builder.portdir_wf, ex_scfg. cbn. repeat split; lia.
+  - eexists. split; [vm_compute; reflexivity|]. left. reflexivity.
+Qed.
